@@ -26,7 +26,15 @@ DOTTED = ["a.b", "svc.math.add", "x.y.z.w"]
 UNI = ["méthode", "方法", "naïve_call", "do it", "Ω"]
 
 
+def aliased(rnd):
+    """Values whose Python object graph contains the same list / dict object more than once (not a cycle)."""
+    row = rnd.choice([[1, 2], {"k": "v"}, [], ["é", None]])
+    return rnd.choice([[row, row], {"first": row, "second": row}, [[0] * 2] * 3, [row, {"again": row}, 1]])
+
+
 def value(cls, rnd):
+    if cls in ("nested", "dictnested") and rnd.random() < 0.3:
+        return aliased(rnd)
     return {"null": None, "bool": rnd.choice([True, False]), "zero": rnd.choice([0, 0.0, -0.0]), "int": rnd.choice([1, -7, 42]),
             "bigint": rnd.choice([2 ** 53, -2 ** 53, 2 ** 53 - 1]), "negfloat": rnd.choice([-1.5, 1e-9, 1.7976931348623157e308, 5e-324]),
             "emptystr": "", "unicode": rnd.choice(["é", "𝄞 x", "\u0000", "日本語", "\"q\\", " "]), "emptylist": [],
@@ -152,6 +160,8 @@ def run_case(c, box, rnd, counter):
             args, kwargs = [], {rnd.choice(["a", "b_c", "é", "x1"]): value(c["argc"], rnd), "second": value(rnd.choice(["int", "emptystr", "null"]), rnd)}
         else:
             args, kwargs = [value(c["argc"], rnd)] + [value(rnd.choice(["int", "unicode", "emptylist", "null", "zero"]), rnd) for _ in range(rnd.randint(0, 2))], {}
+            if rnd.random() < 0.15 and isinstance(args[0], (list, dict)):
+                args.append(args[0])            # the very same object passed twice
         if not c["jc"] and rnd.random() < 0.5:
             # class translation off on both sides: a '__jsonclass__' member is ordinary data
             which = rnd.choice(["ret", "arg", "both"])
@@ -238,6 +248,40 @@ def run_case(c, box, rnd, counter):
     return rec
 
 
+def run_long(box, rnd, counter, n):
+    """One proxy, one History, n exchanges in a row: the History holds all of them, in order."""
+    counter[0] += 1
+    name = "long_%d" % counter[0]
+    box.register(name, "r")
+    with box.lock:
+        del box.log[:], box.wire_req[:], box.wire_resp[:]
+    hist = History()
+    p = box.proxy("2", True, hist)
+    jobs, results = [], []
+    for k in range(n):
+        args = [k, "call-%d" % k]
+        try:
+            results.append(enc(getattr(p, name)(*args)))
+        except BaseException as e:  # noqa
+            results.append(enc("raised " + type(e).__name__))
+        jobs.append({"name": name, "kw": False, "notify": False, "args": enc(args), "kwargs": enc({}), "ret": enc("r")})
+    deadline = time.time() + 2.0
+    while time.time() < deadline:
+        with box.lock:
+            if len(box.wire_resp) >= n:
+                break
+        time.sleep(0.002)
+    try:
+        p("close")()
+    except BaseException:  # noqa
+        pass
+    with box.lock:
+        return {"a": {"style": "plain_pos", "vc": "2", "vs": "2", "leg": box.leg, "jc": True, "argc": "int", "retc": "unicode", "long": n},
+                "jobs": jobs, "log": list(box.log), "outcome": {"ok": True, "results": results, "single": enc(None), "exc": ""},
+                "history": {"requests": list(hist.requests), "responses": list(hist.responses)},
+                "wire": {"requests": list(box.wire_req), "responses": list(box.wire_resp)}}
+
+
 if __name__ == "__main__":
     import socket as _socket
     _socket.setdefaulttimeout(10)        # a peer (or a changed library) that never answers ends a call with an error, not a hang
@@ -256,6 +300,10 @@ if __name__ == "__main__":
         if "timed out" in rec["outcome"]["exc"] or "Timeout" in rec["outcome"]["exc"]:
             box.timeouts = getattr(box, "timeouts", 0) + 1
         recs.append(rec)
+    # a long-lived History (well beyond any "reasonable" number of entries) on two legs
+    for key, b in list(boxes.items())[:2]:
+        if key[1] == "2":
+            recs.append(run_long(b, rnd, counter, 130))
     for b in boxes.values():
         b.close()
     json.dump(recs, open(out, "w"))
